@@ -297,10 +297,13 @@ class Lexer:
 
             ([\w\.\:]+)   # keyword
 
-            ((?:\s+\w+|\s*=\s*|"[^"]*?"|'[^']*?'|\s*,\s*)*)  # attrname, = \
-                                               #        sign, string expression
-                                               # comma is for backwards compat
-                                               # identified in #366
+            # attribute names, "=" signs, quoted string expressions; the
+            # comma is for backwards compat identified in #366.  Every
+            # whitespace run has exactly one alternative that can consume
+            # it ("=" / "," take trailing whitespace only in front of a
+            # quote), so a tag that does not close fails in linear time
+            # instead of backtracking exponentially
+            ((?:\s+\w+|\s*[=,](?:\s+(?=["']))?|"[^"]*"|'[^']*')*)
 
             \s*     # more whitespace
 
